@@ -148,6 +148,16 @@ func kXpolBuild(args []string) (string, string) {
 	return line, oracle
 }
 
+func genC07(r *rng, n int, tier string, emit func(string, ...string)) {
+	genC08(r, n/2, tier, emit)
+	// plus plain parses of clean records with small spill thresholds: the declared block must be readable completely
+	genUnmarshalCases(r, n, emit, func(r *rng) ropts {
+		o := genRopts(r)
+		o.maxMem = pick(r, []int{1, 2, 3, 5, 8, 16, 33, 64})
+		return o
+	})
+}
+
 func genC08(r *rng, n int, tier string, emit func(string, ...string)) {
 	genUnmarshalCases(r, n, func(kind string, args ...string) {
 		emit("xpol", args[0], args[1], args[2], args[3])
@@ -167,5 +177,5 @@ func init() {
 	kinds["xpol"] = kXpol
 	kinds["xpolb"] = kXpolBuild
 	gens["C08"] = genC08
-	gens["C07"] = genC08
+	gens["C07"] = genC07
 }
